@@ -350,4 +350,54 @@ Section ScopesProofs.
     destruct (all_missing_ok (keqb D) (req D) keq fuel' _ [] l' Hacyc E') as [_ [Hset _]].
     symmetry. apply Hset.
   Qed.
+  (** ** from the tie to the dump: when the recomputed scopes equal the recorded ones as sets
+      ([scope_mismatches] empty, the case field [scopes ()]), the recorded scope of every
+      state contains the arguments of the constraints in its constraint order — the covering
+      clause of C09 for the real automaton, by the theorem about the algorithm *)
+  Lemma lookup_of_forall2 (R : astate K P -> N * list K -> Prop) :
+    forall (sts : list (astate K P)) (sc : list (N * list K)),
+      Forall2 (fun s e => fst e = a_id s /\ R s e) sts sc ->
+      NoDup (map (@a_id K P) sts) ->
+      forall s, In s sts -> exists l, lookup_scope sc (a_id s) = Ok l /\ R s (a_id s, l).
+  Proof.
+    induction 1 as [|s0 e0 sts sc [Hid HR] HF IH]; intros Hnd s Hs; [destruct Hs|].
+    cbn [map] in Hnd. inversion Hnd as [|? ? Hni Hnd']; subst.
+    destruct e0 as [i l0]. cbn [fst] in Hid. subst i. cbn [lookup_scope].
+    destruct Hs as [<-|Hs].
+    - rewrite N.eqb_refl. exists l0. split; [reflexivity|exact HR].
+    - destruct (N.eqb_spec (a_id s0) (a_id s)) as [E|_].
+      + exfalso. apply Hni. rewrite E. now apply in_map.
+      + exact (IH Hnd' s Hs).
+  Qed.
+
+  Theorem scopes_tie_covers fuel (A : automaton K P) order sc :
+    (forall s pk, In s (au_states A) -> In pk (a_matches s) -> po (snd pk)) ->
+    NoDup (map (@a_id K P) (au_states A)) ->
+    populate_scopes D fuel A order = Ok sc ->
+    scope_mismatches D A sc = [] ->
+    forall s cts c t, In s (au_states A) -> cons_transitions s = Ok cts -> In (c, t) cts ->
+      incl (cargs c) (a_scope s).
+  Proof.
+    intros Hm Hnd E Emis s cts c t Hs Ec Hct.
+    pose proof (populate_scopes_ok A Hm fuel order sc E) as HF.
+    destruct (lookup_of_forall2
+                (fun s e => po (snd e) /\ exists cts, cons_transitions s = Ok cts
+                                          /\ forall c t, In (c, t) cts -> incl (cargs c) (snd e))
+                (au_states A) sc HF Hnd s Hs) as [l [Hl [_ [cts' [Ec' Hcov]]]]].
+    cbn [snd] in Hcov. rewrite Ec in Ec'. inversion Ec'; subst cts'.
+    (* the recorded scope has the same elements *)
+    assert (Hsame : same_keys D l (a_scope s) = true).
+    { unfold scope_mismatches in Emis.
+      destruct (same_keys D l (a_scope s)) eqn:Es; [reflexivity|]. exfalso.
+      assert (Hin : In (a_id s) (flat_map (fun s : astate K P =>
+                match lookup_scope sc (a_id s) with
+                | Ok l => if same_keys D l (a_scope s) then [] else [a_id s]
+                | _ => [a_id s]
+                end) (au_states A))).
+      { apply in_flat_map. exists s. split; [exact Hs|]. rewrite Hl, Es. now left. }
+      rewrite Emis in Hin. destruct Hin. }
+    unfold same_keys in Hsame. apply andb_true_iff in Hsame as [H1 _].
+    apply (inclb_incl (keqb D) keq) in H1.
+    intros k Hk. apply H1. exact (Hcov c t Hct k Hk).
+  Qed.
 End ScopesProofs.
